@@ -11,6 +11,7 @@ C18 — Fail-stop: truncated or missing files raise, never yield a wrong tree.
 -/
 import Alos2.Proofs.ImageIO
 import Alos2.Proofs.ProductOpen
+import Alos2.Proofs.FailStop
 
 namespace Alos2.C18
 
@@ -33,5 +34,33 @@ example : headerSize ≤ 720 ∧ 720 < headerSize + 1 * 200 := by decide
     FileNotFoundError: error classes compared on damaged products by the whole-product correspondence) -/
 theorem missing_summary (fs : Files) (rpc : Nat) (h : fs.get "summary.txt" = none) : openProduct fs rpc = .error .os :=
   openProduct_missing_summary fs rpc h
+
+/-- fail-stop on the LAYOUT-based reader: the records a successful metadata pass returns all lie inside the file, never more
+    than the header declares, and fewer than declared only when the file ends exactly after the last one returned -/
+theorem records_within_file (file : Bytes) (rpc : Nat) (header : Val) (recs : List Val)
+    (h : readImageRecords file rpc = .ok (header, recs))
+    (n L : Nat) (hL : 0 < L)
+    (hdrn : intAt header ["number_of_sar_data_records"] = .ok (n : Int))
+    (hdrL : intAt header ["sar_data_record_length"] = .ok (L : Int))
+    (t : Nat)
+    (hrl : ∀ r ∈ recs, intAt r ["preamble", "record_length"] = .ok (L : Int))
+    (hty : ∀ r ∈ recs, intAt r ["preamble", "record_type"] = .ok (t : Int)) :
+    recs.length ≤ n ∧
+    (0 < recs.length → 720 + recs.length * L ≤ file.length) ∧
+    (recs.length < n → file.length = 720 + recs.length * L) :=
+  readImageRecords_within_file file rpc header recs h n L hL hdrn hdrL t hrl hty
+
+/-- … so an image file cut short can never yield its declared number of line records (whatever `records_per_chunk`): the
+    image group then has fewer per-line entries than the declared shape, which is what xarray's dimension check rejects -/
+theorem cut_file_never_complete (file : Bytes) (rpc : Nat) (header : Val) (recs : List Val)
+    (h : readImageRecords file rpc = .ok (header, recs))
+    (n L : Nat) (hL : 0 < L) (hn : 0 < n)
+    (hdrn : intAt header ["number_of_sar_data_records"] = .ok (n : Int))
+    (hdrL : intAt header ["sar_data_record_length"] = .ok (L : Int))
+    (t : Nat)
+    (hrl : ∀ r ∈ recs, intAt r ["preamble", "record_length"] = .ok (L : Int))
+    (hty : ∀ r ∈ recs, intAt r ["preamble", "record_type"] = .ok (t : Int))
+    (hshort : file.length < 720 + n * L) : recs.length < n :=
+  truncated_never_complete file rpc header recs h n L hL hn hdrn hdrL t hrl hty hshort
 
 end Alos2.C18
